@@ -51,15 +51,16 @@ theorem verticesOk_unpack {T : Tables} {cls : String} {types : List String}
 theorem scale_edits_ok {d : Desc} (h : Good d) {p : Dict} {rows : List JV}
     (hp : getKey d "params" = some (.obj p)) (hv : getKey p "vertices" = some (.arr rows)) (v : JV) (b : Bool) :
     ∃ d', applyEdits [.set "location" v, .scaleVertices b] d = .ok d' ∧ Good d' ∧
-      getKey d' "location" = some v := by
+      getKey d' "location" = some v ∧ getKey d' "type" = getKey d "type" := by
   have hp1 : getKey (setKey d "location" v) "params" = some (.obj p) := by
     rw [getKey_setKey_ne _ _ _ _ (by decide)]; exact hp
   refine ⟨setKey (setKey d "location" v) "params" (.obj (setKey p "vertices" (.arr (scaleRows b rows)))),
-    ?_, (h.setKey "location" v (by decide)).setParams _, ?_⟩
+    ?_, (h.setKey "location" v (by decide)).setParams _, ?_, ?_⟩
   · unfold applyEdits
     simp only [List.foldlM_cons, List.foldlM_nil, Edit.apply, bind, Except.bind, hp1, hv]
     rfl
   · rw [getKey_setKey_ne _ _ _ _ (by decide), getKey_setKey_self]
+  · rw [getKey_setKey_ne _ _ _ _ (by decide), getKey_setKey_ne _ _ _ _ (by decide)]
 
 theorem color666Toric_tables :
     classTablesOk Generated.GuiFull.tables "Color666ToricCode" color666Types = true := by decide +kernel
@@ -95,12 +96,12 @@ theorem color666Toric_served (L : Nat) (hL : 1 ≤ L) (name : String) (hn : name
     obtain ⟨_, hall⟩ := classTablesOk_unpack color666Toric_tables rot
     obtain ⟨e, hl, he⟩ := hall t ht
     obtain ⟨pp, rows, hpp, hrows⟩ := verticesOk_unpack color666Toric_vertices rot ht hl
-    obtain ⟨d, hd, hg, _, _, hpar⟩ :=
+    obtain ⟨d, hd, hg, _, htyp, hpar⟩ :=
       baseStab_ok Generated.GuiFull.tables "Color666ToricCode" rot t [x, y, p] e hl he
-    obtain ⟨d', h1, h2, h3⟩ := scale_edits_ok hg (hpar.trans hpp) hrows (JV.ints [x, y]) (isXType t)
-    refine ⟨d', ?_, h2.complete, ?_⟩
-    · have hst : (color666Toric L L).stabType [x, y, p] = some t := hty
-      have hcls : (color666Toric L L).cls = "Color666ToricCode" := rfl
+    obtain ⟨d', h1, h2, h3, h4⟩ := scale_edits_ok hg (hpar.trans hpp) hrows (JV.ints [x, y]) (isXType t)
+    have hst : (color666Toric L L).stabType [x, y, p] = some t := hty
+    refine ⟨d', ?_, h2.complete, ?_, by rw [h4, htyp, hst]; rfl⟩
+    · have hcls : (color666Toric L L).cls = "Color666ToricCode" := rfl
       unfold ClassGeom.stabRepr
       simp only [hst, hcls, hd]; exact h1
     · rw [h3]
